@@ -66,6 +66,10 @@ def plan(tier, seed, acts_extra=(), lvl2=True, nonsq=False):
                      small=[tl[n] for n in ("T_sh", "T_dg", "T_tl")],
                      acts={"Kronecker", "BlockDiag", "Product", "Kronecker3", "BlockDiag3", "Product3", "linalg"}
                      | set(acts_extra), lvl=1, dim=9, ebound=12))
+    # nested block diagonals with outer multiplicities (BlockDiag(BlockDiag(A, B; m), C; m') up to dimension 8)
+    nb = [tl["T_sh"], tl["T_dg"], catalog.dense([[2]], "f64"), catalog.dense([[-3]], "f64"), catalog.dense([[1j]], "c128")]
+    runs.append(dict(seeds=nb, operands=nb, small=nb[:2], acts={"BlockDiag", "linalg"} | set(acts_extra), lvl=2, dim=8,
+                     ebound=12))
     if nonsq:
         # square trees assembled from non-square factors (Kronecker(2x3, 3x2), BlockDiag(1x3, 3x1), products, sums)
         ns = [L[n] for n in ["D23", "D32", "D13", "D31", "D32c", "D22", "Dg2", "I2"]]
